@@ -256,7 +256,8 @@ class Emitter:
         """place := term ; k(env')"""
         if place.kind == "paren":
             return self.write_place(place.e, term, env, k)
-        if place.kind == "unary" and place.op in ("*",):
+        if place.kind == "unary" and place.op in ("*", "&mut"):
+            # `*p = ..`, and an argument `&mut place` written back after a call
             return self.write_place(place.e, term, env, k)
         if place.kind == "path" and len(place.segs) == 1:
             name = place.segs[0]
@@ -268,6 +269,12 @@ class Emitter:
         if place.kind == "field":
             def k1(base, bty, env1):
                 getter, setter, fty = self.field_info(bty, place.name)
+                return self.write_place(place.e, "(%s %s %s)" % (setter, base, term), env1, k)
+            return self.expr(place.e, env, k1)
+        if place.kind == "tfield":
+            # field of a tuple struct (vocabulary field name = the index as a string)
+            def k1(base, bty, env1):
+                getter, setter, fty = self.field_info(bty, str(place.idx))
                 return self.write_place(place.e, "(%s %s %s)" % (setter, base, term), env1, k)
             return self.expr(place.e, env, k1)
         if place.kind == "index":
@@ -576,10 +583,34 @@ class Emitter:
         given = dict(e.fields)
         if e.base is not None or set(given) != set(order):
             raise EmitError("struct literal %s: fields %r, expected %r" % (name, sorted(given), order))
-        return self.exprs([given[f] for f in order], env,
+        vals = []
+        for f in order:
+            if self.default_call(given[f]) and "defaults" in self.v:
+                # `field: Default::default()`: chosen by the field's type (vocabulary key defaults)
+                fty = st["fields"][f][2]
+                if repr(fty) not in self.v["defaults"]:
+                    raise EmitError("Default::default() for field %s of type %r: no default in the vocabulary" % (f, fty))
+                vals.append(N("rawterm", term=self.v["defaults"][repr(fty)], ty=fty))
+            else:
+                vals.append(given[f])
+        return self.exprs(vals, env,
                           lambda ts, tys, env1: k("(%s %s)" % (st["ctor"][0], " ".join(ts)), ("struct", name), env1))
 
+    def e_rawterm(self, e, env, k):
+        """a Gallina term chosen by the translator itself (never produced by the Rust parser)"""
+        return k(e.term, e.ty, env)
+
+    def default_call(self, e):
+        return (e.kind == "call" and e.f.kind == "path" and e.f.segs[-2:] == ["Default", "default"] and not e.args)
+
     def e_assign(self, e, env, k):
+        if e.op == "=" and self.default_call(e.rhs) and "defaults" in self.v:
+            # `place = Default::default()`: the value is chosen by the type of the place
+            # (optional vocabulary key defaults: {repr(type): term})
+            pr = self.try_pure(e.lhs, env)
+            if pr is None or repr(pr[1]) not in self.v["defaults"]:
+                raise EmitError("Default::default() assigned to a place of type %r: no default in the vocabulary" % (pr[1] if pr else None,))
+            return self.write_place(e.lhs, self.v["defaults"][repr(pr[1])], env, lambda env2: k("tt", UNIT, env2))
         if e.op == "=":
             return self.expr(e.rhs, env, lambda t, ty, env1: self.write_place(e.lhs, t, env1, lambda env2: k("tt", UNIT, env2)),
                              ) if e.rhs.kind != "int" else self.assign_lit(e, env, k)
@@ -1542,6 +1573,10 @@ class Emitter:
             p = pat
             while p.kind == "pref":
                 p = p.inner
+            if p.kind == "pwild" and mode == "in":
+                # `_: T`: an unused binder
+                binders.append("(%s : %s)" % (self.fresh("unused"), self.coq_ty(pty)))
+                continue
             if p.kind != "pident":
                 raise EmitError("parameter pattern %s" % p.kind)
             n = self.fresh(p.name)
